@@ -32,9 +32,9 @@ type bounds struct {
 
 func tierBounds() []bounds {
 	if vk.Thorough() {
-		return []bounds{{6, 5}, {5, 6}, {3, 6}}
+		return []bounds{{6, 5}, {5, 6}, {7, 3}, {4, 7}}
 	}
-	return []bounds{{5, 4}, {3, 5}}
+	return []bounds{{5, 3}, {4, 4}, {3, 7}}
 }
 
 var (
@@ -45,7 +45,9 @@ var (
 
 type runner struct {
 	res        *vk.Result
-	failCount  map[string]int
+	failCount  map[string]int // failing cases per signature (all of them)
+	attempts   map[string]int // confirmation attempts per signature
+	reported   map[string]int // confirmed + recorded per signature
 	modelNoted bool
 }
 
@@ -75,7 +77,7 @@ func TestCheck(t *testing.T) {
 		"time-sorted searches need the in-memory corpus: the index-only handler rejects these sorts, so only corpus-backed handlers are in scope",
 		"worlds are static while a walk is in progress (no blobs arrive between pages)",
 	}
-	r := &runner{res: res, failCount: map[string]int{}}
+	r := &runner{res: res, failCount: map[string]int{}, attempts: map[string]int{}, reported: map[string]int{}}
 	if rp, ok := vk.ReplayFile(); ok {
 		r.replay(rp)
 		res.Write()
@@ -92,8 +94,8 @@ func TestCheck(t *testing.T) {
 				scA := res.Scenario(fmt.Sprintf("around/%s/N=%d,I=%d/%s", fam, b.N, b.NInst, mode))
 				scO := res.Scenario(fmt.Sprintf("around-other-sorts/%s/N=%d,I=%d/%s", fam, b.N, b.NInst, mode))
 				scP.Bound = fmt.Sprintf("all %d^%d=%d assignments of instants %s to %d permanodes; %d constraints x sorts {CreatedDesc,LastModifiedDesc,Unspecified} x page sizes 1..%d; walk follows tokens until none", b.NInst, b.N, total, instNames(b.NInst), b.N, len(konsAll), b.N+1)
-				scA.Bound = fmt.Sprintf("same %d worlds; %d constraints x sorts {CreatedDesc,LastModifiedDesc,Unspecified} x limits {-1,1..%d} x %d pivots (every live permanode, deleted permanode, claim-less permanode, permanode with deleted claim, public key blob, claim blob, delete claim, unknown ref)", total, len(konsAll), b.N+1, b.N+7)
-				scO.Bound = fmt.Sprintf("same %d worlds; %d constraints x sorts {CreatedAsc,BlobRefAsc} x limits {-1,1..%d} x %d pivots", total, len(konsAll), b.N+1, b.N+7)
+				scA.Bound = fmt.Sprintf("same %d worlds; %d constraints x sorts {CreatedDesc,LastModifiedDesc} x limits {-1,1..%d} x %d pivots (every live permanode, deleted permanode, claim-less permanode, permanode with deleted claim, public key blob, claim blob, delete claim, unknown ref)", total, len(konsAll), b.N+1, b.N+7)
+				scO.Bound = fmt.Sprintf("same %d worlds without the claim-less permanodes; first %d constraints x sorts {CreatedAsc,BlobRefAsc} x limits {-1,1..%d} x %d pivots", total, otherKons, b.N+1, b.N+7)
 				for idx := 0; idx < total; idx++ {
 					k++
 					if !vk.Mine(k) {
@@ -139,11 +141,18 @@ func instNames(n int) string {
 // report confirms a failure by re-running the case on freshly built worlds 5
 // times, then records the violation. Only the first 3 cases per signature are
 // confirmed and recorded (vk keeps at most 3 anyway); all are counted.
-func (r *runner) report(sc *vk.Scenario, c Case, f *Failure) {
+//
+// orderOpen marks a case whose result order perkeep leaves to Go map iteration
+// (CreatedAsc among permanodes with equal times): such a failure may honestly
+// come and go between runs, so a non-reproduction is counted (C09-STATS
+// "unstable") instead of being an engine error, and the next failing case is
+// tried. Every other case must reproduce 5 out of 5 times.
+func (r *runner) report(sc *vk.Scenario, c Case, f *Failure, orderOpen bool) {
 	r.failCount[f.Sig]++
-	if r.failCount[f.Sig] > 3 {
+	if r.reported[f.Sig] >= 3 || r.attempts[f.Sig] >= 40 {
 		return
 	}
+	r.attempts[f.Sig]++
 	for i := 0; i < 5; i++ {
 		f2, err := runCase(c)
 		if err != nil {
@@ -151,6 +160,10 @@ func (r *runner) report(sc *vk.Scenario, c Case, f *Failure) {
 			return
 		}
 		if f2 == nil || f2.Sig != f.Sig {
+			if orderOpen {
+				r.failCount["(unstable, not reported) "+f.Sig]++
+				return
+			}
 			got := "no failure"
 			if f2 != nil {
 				got = f2.Sig
@@ -160,6 +173,7 @@ func (r *runner) report(sc *vk.Scenario, c Case, f *Failure) {
 			return
 		}
 	}
+	r.reported[f.Sig]++
 	r.res.Violate(sc, f.Sig, f.What+" ["+c.Spec.String()+"]", c)
 }
 
@@ -188,7 +202,7 @@ func (r *runner) world(spec Spec, scP, scA, scO *vk.Scenario) {
 			full, f := w.Full(k, s)
 			scP.Transitions++
 			if f != nil {
-				r.report(scP, Case{Spec: spec, Kind: "paging", Kons: k.Name, Sort: sn, Limit: 1}, f)
+				r.report(scP, Case{Spec: spec, Kind: "paging", Kons: k.Name, Sort: sn, Limit: 1}, f, false)
 				continue
 			}
 			// harness self-check: the reference list is what the model says
@@ -202,7 +216,7 @@ func (r *runner) world(spec Spec, scP, scA, scO *vk.Scenario) {
 				scP.Executions++
 				scP.Transitions += int64(out.Queries)
 				if f != nil {
-					r.report(scP, Case{Spec: spec, Kind: "paging", Kons: k.Name, Sort: sn, Limit: limit}, f)
+					r.report(scP, Case{Spec: spec, Kind: "paging", Kons: k.Name, Sort: sn, Limit: limit}, f, false)
 					scP.Outcome("FAIL|" + f.Sig)
 					continue
 				}
@@ -215,13 +229,16 @@ func (r *runner) world(spec Spec, scP, scA, scO *vk.Scenario) {
 					scP.Sample(map[string]any{"world": spec.String(), "constraint": k.Name, "sort": sn, "limit": limit, "full": w.names(full), "pages": out.Pages, "verdict": "concatenation of pages == full"})
 				}
 			}
+			if s == search.UnspecifiedSort {
+				continue // same plan as CreatedDesc from here on; the token walk above is what differs (sort defaulting + token)
+			}
 			for _, limit := range aroundLimits(spec.N) {
 				for _, pv := range w.Pivots {
 					out, f := w.CheckAround("around", k, s, limit, pv, full)
 					scA.Executions++
 					scA.Transitions++
 					if f != nil {
-						r.report(scA, Case{Spec: spec, Kind: "around", Kons: k.Name, Sort: sn, Limit: limit, Pivot: pv.Name}, f)
+						r.report(scA, Case{Spec: spec, Kind: "around", Kons: k.Name, Sort: sn, Limit: limit, Pivot: pv.Name}, f, false)
 						scA.Outcome("FAIL|" + f.Sig)
 						continue
 					}
@@ -240,7 +257,7 @@ func (r *runner) world(spec Spec, scP, scA, scO *vk.Scenario) {
 		r.res.EngineError("building %s: %v", lean, err)
 		return
 	}
-	for _, k := range konsAll {
+	for _, k := range konsAll[:otherKons] {
 		r.otherSorts(wl, k, scO)
 	}
 	if len(scA.Samples) == 0 && spec.N >= 3 {
@@ -265,7 +282,11 @@ func (r *runner) listKey(w *World, full []blob.Ref, s search.SortType) string {
 	return key + "@" + w.Spec.names()
 }
 
+// runCase re-executes one case on a freshly built world, through the
+// production constructor search.NewHandler (the mass enumeration uses the bare
+// overlay constructor; see overlay/verif_c09_handler.go.txt).
 func runCase(c Case) (*Failure, error) {
+	c.Spec.RealHub = true
 	w, err := Build(c.Spec)
 	if err != nil {
 		return nil, err
